@@ -12,6 +12,7 @@ REPERTOIRE = {
     "arab": [("alef-ar", 0x627), ("beh-ar", 0x628), ("lam-ar", 0x644)],
     "hebr": [("alef-hb", 0x5D0), ("bet-hb", 0x5D1)],
     "deva": [("ka-deva", 0x915), ("kha-deva", 0x916)],
+    "lao": [("ko-lao", 0xE81), ("kho-lao", 0xE82)],
     "kana": [("a-hira", 0x3042), ("ka-kata", 0x30AB)],
     "armn": [("ayb-arm", 0x531), ("ben-arm", 0x532)],
     "geor": [("an-geor", 0x10D0), ("ban-geor", 0x10D1)],
@@ -392,6 +393,8 @@ def full_font(rng):
         sets.append(("cyrl", True))
     if rng.random() < 0.3:
         sets.append(("deva", True))       # a script with TWO OpenType tags (dev2 / deva)
+    if rng.random() < 0.25:
+        sets.append(("lao", True))        # a script whose OpenType tag has three letters ("lao ")
     if rng.random() < 0.2:
         sets = [s for s in sets if s[0] != "latin"] or sets
     gl = []
@@ -412,13 +415,15 @@ def full_font(rng):
             skip.append("alaph-syr")
     if any(c == "deva" for c, _ in sets):
         gl.append(("anusvara-deva", 0x902))
+    if any(c == "lao" for c, _ in sets):
+        gl.append(("maiek-lao", 0xEC8))
     if rng.random() < 0.3:
         gl.append(("haa-thaana", 0x780))
         skip.append("haa-thaana")
     names = [n for n, _ in gl]
     glyphs = {}
     for n, cp in gl:
-        mark = n in ("acutecomb", "fatha-ar", "anusvara-deva")
+        mark = n in ("acutecomb", "fatha-ar", "anusvara-deva", "maiek-lao")
         anchors = []
         if mark:
             anchors.append({"n": "_top", "x": 0, "y": 500 * PS})
@@ -441,7 +446,7 @@ def full_font(rng):
         kerning.append(["period", "period", 10 * 4])
     r = rng.random()
     decl = []
-    tagmap = {"latin": ["latn"], "arab": ["arab"], "cyrl": ["cyrl"], "deva": ["dev2", "deva"]}
+    tagmap = {"latin": ["latn"], "arab": ["arab"], "cyrl": ["cyrl"], "deva": ["dev2", "deva"], "lao": ["lao"]}
     if r < 0.35:
         decl = []
     elif r < 0.5:
@@ -453,12 +458,12 @@ def full_font(rng):
     if "dev2" in decl and rng.random() < 0.3:
         decl.remove(rng.choice(["dev2", "deva"]))
     lines = []
-    langs = {"latn": ["TRK ", "ROM "], "arab": ["URD ", "KSH "], "cyrl": ["SRB "], "dev2": ["MAR ", "NEP "], "deva": ["MAR ", "HIN "], "DFLT": []}
+    langs = {"latn": ["TRK ", "ROM "], "arab": ["URD ", "KSH "], "cyrl": ["SRB "], "dev2": ["MAR ", "NEP "], "deva": ["MAR ", "HIN "], "lao": ["LAO "], "DFLT": []}
     for t in decl:
         mine = [f"languagesystem {t} dflt;"]
         # non-default language systems; the two tags of one script may declare different lists
         for lg in langs.get(t, []):
-            if rng.random() < 0.35:
+            if rng.random() < (0.8 if t == "lao" else 0.35):
                 mine.append(f"languagesystem {t} {lg.strip()};")
         # a script's default language system need not be declared first -- or at all
         if len(mine) > 1 and t != "DFLT" and rng.random() < 0.4:
